@@ -90,6 +90,13 @@ def i2cFinish (data : List UInt8) (fields : Int × Int × Int × Nat × Nat) (ad
     valid := checksum256 (data.take n) == (data.getD n 0).toNat,
     called := true }
 
+/-- the paths of `I2CElement.new_data` that end an update, named by the chain of `if` tests that leads to them (Gen
+`i2cCbCalls` / `i2cCbClears` list where the callback is called and where the pending record is cleared) -/
+def i2cPathUnknown : String :=
+  "mem.id == self.id > addr == 0 > data[0:4] == EEPROM_TOKEN > self.elements['version'] == 0/else > self.elements['version'] == 1/else > self._update_finished_cb"
+def i2cPathBadToken : String := "mem.id == self.id > addr == 0 > data[0:4] == EEPROM_TOKEN/else > self._update_finished_cb"
+def i2cPathDone : String := "mem.id == self.id > done > self._update_finished_cb"
+
 /-- `I2CElement.update` + `new_data` against a memory: first read `(0, 16)`, for version 1 a second read `(16, 5)` -/
 def i2cUpdate (m : Mem) : Except PyErr I2CParsed :=
   let d0 := m.read (Gen.C14.i2cRead1.getD 0 0) (Gen.C14.i2cRead1.getD 1 0)
@@ -105,7 +112,7 @@ def i2cUpdate (m : Mem) : Except PyErr I2CParsed :=
         | .ok [.int up, .int lo] =>
           .ok (i2cFinish (d0 ++ d1) (v, ch, sp, p, r) (some (Gen.C14.i2cAddrJoin up.toNat lo.toNat)))
         | .ok _ => .error .valueError
-      else .ok { fields := some (v, ch, sp, p, r), address := none, valid := false, called := false }
+      else .ok { fields := some (v, ch, sp, p, r), address := none, valid := false, called := Gen.C14.i2cCbCalls.contains i2cPathUnknown }
     | .ok _ => .error .valueError
   else .ok { fields := none, address := none, valid := false, called := true }
 
@@ -860,9 +867,12 @@ inductive I2COp
 def I2CObj.elems? (s : I2CObj) : Option I2CElems :=
   s.fields.map fun (v, ch, sp, p, r) => ⟨v, ch, sp, p, r, s.address⟩
 
-/-- the callback block `if self._update_finished_cb: cb(self); self._update_finished_cb = None` -/
-def I2CObj.callback (s : I2CObj) : I2CObj × List MemOut :=
-  if s.pending then ({ s with pending := false }, [.done]) else (s, [])
+/-- the callback block `if self._update_finished_cb: cb(self); self._update_finished_cb = None` on the path `path`:
+whether the callback is called there and whether the pending record is cleared there is read from the source -/
+def I2CObj.callback (s : I2CObj) (path : String) : I2CObj × List MemOut :=
+  if s.pending then
+    ({ s with pending := !Gen.C14.i2cCbClears.contains path }, if Gen.C14.i2cCbCalls.contains path then [.done] else [])
+  else (s, [])
 
 /-- one method call on the object -/
 def i2cStep (s : I2CObj) : I2COp → Except PyErr (I2CObj × List MemOut)
@@ -886,12 +896,13 @@ def i2cStep (s : I2CObj) : I2COp → Except PyErr (I2CObj × List MemOut)
           let s1 := { s with fields := some (v, ch, sp, p, r) }
           if v = 0 then
             let s2 := if (i2cFinish data (v, ch, sp, p, r) none).valid then { s1 with valid := true } else s1
-            .ok s2.callback
+            .ok (s2.callback i2cPathDone)
           else if v = 1 then
             .ok ({ s1 with datav0 := some data }, [.read (Gen.C14.i2cRead2.getD 0 0) (Gen.C14.i2cRead2.getD 1 0)])
-          else .ok (s1, [])
+          else if Gen.C14.i2cCbCalls.contains i2cPathUnknown then .ok (({ s1 with valid := false }).callback i2cPathUnknown)
+          else .ok (s1, [])                 -- no branch for another version: nothing is reported, the update stays pending
         | .ok _ => .error .valueError
-      else .ok ({ s with valid := false }).callback
+      else .ok (({ s with valid := false }).callback i2cPathBadToken)
     else if addr = 16 then
       match s.datav0 with
       | none => .error .attributeError
@@ -903,7 +914,7 @@ def i2cStep (s : I2CObj) : I2COp → Except PyErr (I2CObj × List MemOut)
           let full := d0 ++ data
           let n := full.length - 1
           let s2 := if checksum256 (full.take n) == (full.getD n 0).toNat then { s1 with valid := true } else s1
-          .ok s2.callback
+          .ok (s2.callback i2cPathDone)
         | .ok _ => .error .valueError
     else .error .other        -- `done` is unbound for any other address (UnboundLocalError)
 
@@ -950,8 +961,15 @@ inductive OWOp
   | disconnect
   deriving Repr, DecidableEq
 
-def OWObj.callback (s : OWObj) : OWObj × List MemOut :=
-  if s.pending then ({ s with pending := false }, [.done]) else (s, [])
+def owPathShortcut : String :=
+  "mem.id == self.id > addr == 0 > self._parse_and_check_header(data[0:8]) > elem_len == 0 and self._parse_and_check_elements(data[8:11])"
+def owPathBadHeader : String := "mem.id == self.id > addr == 0 > self._parse_and_check_header(data[0:8])/else > self._update_finished_cb"
+def owPathSection : String := "mem.id == self.id > addr == 0/else > addr == 8 > self._update_finished_cb"
+
+def OWObj.callback (s : OWObj) (path : String) : OWObj × List MemOut :=
+  if s.pending then
+    ({ s with pending := !Gen.C14.owCbClears.contains path }, if Gen.C14.owCbCalls.contains path then [.done] else [])
+  else (s, [])
 
 /-- one method call on the object (REPAIRED `update`: fixes/D121-c14.patch re-initialises `elements`) -/
 def owStep (s : OWObj) : OWOp → Except PyErr (OWObj × List MemOut)
@@ -980,17 +998,17 @@ def owStep (s : OWObj) : OWOp → Except PyErr (OWObj × List MemOut)
               | .error e => .error e
               | .ok (some d) =>
                 -- `self._update_finished_cb(self)` without a test: TypeError when no update is pending
-                if s1.pending then .ok ({ s1 with elements := d, valid := true, pending := false }, [.done])
+                if s1.pending then .ok (({ s1 with elements := d, valid := true }).callback owPathShortcut)
                 else .error .typeError
               | .ok none => fetch
             else fetch
           | .ok _ => .error .valueError
-        else .ok s1.callback
+        else .ok (s1.callback owPathBadHeader)
     else if addr = 8 then
       match owElements data s.elements with
       | .error e => .error e
-      | .ok (some d) => .ok ({ s with elements := d, valid := true }).callback
-      | .ok none => .ok s.callback
+      | .ok (some d) => .ok (({ s with elements := d, valid := true }).callback owPathSection)
+      | .ok none => .ok (s.callback owPathSection)
     else .ok (s, [])
 
 def owServe : Nat → OWObj → List MemOut → List Mem → Bool → Except PyErr (OWObj × Bool)
